@@ -39,6 +39,8 @@ class Worker:
         os.close(w)
         self.buf = b""
         self._err = []
+        self._err_total = 0     # lines ever read from the worker's stderr
+        self._err_mark = 0      # ... of which before the case in flight was sent
         self._errthread = threading.Thread(target=self._drain_err, daemon=True)
         self._errthread.start()
 
@@ -46,6 +48,7 @@ class Worker:
         try:
             for line in self.proc.stderr:
                 self._err.append(line)
+                self._err_total += 1
                 if len(self._err) > 200:
                     del self._err[:100]
         except Exception:
@@ -54,7 +57,14 @@ class Worker:
     def stderr_tail(self, n=15) -> str:
         return b"".join(self._err[-n:]).decode("utf-8", "replace")
 
+    def stderr_of_this_case(self) -> str:
+        """What the worker wrote to stderr since the case in flight was sent (a traceback dumped during an *earlier* case of the same
+        worker says nothing about where this one is stuck)."""
+        n = min(self._err_total - self._err_mark, len(self._err))
+        return b"".join(self._err[-n:]).decode("utf-8", "replace") if n > 0 else ""
+
     def send(self, case: dict) -> bool:
+        self._err_mark = self._err_total
         try:
             self.proc.stdin.write((json.dumps(case) + "\n").encode())
             self.proc.stdin.flush()
@@ -107,6 +117,10 @@ class Worker:
             pass
         try:
             self.proc.wait(timeout=5)
+        except Exception:
+            pass
+        try:
+            self._errthread.join(timeout=2)     # let the reader see what the worker wrote last (a traceback dumped just before the kill)
         except Exception:
             pass
         for f in (self.proc.stdin, self.proc.stderr):
@@ -209,7 +223,7 @@ def run_cases(task: str, cases, *, workers: int | None = None, deadline_s: float
                     blocked = w.blocked()
                     w.kill()
                     err = w.stderr_tail(60)
-                    out.put((c, {"_timeout": True, "cpu_s": cpu, "_blocked": blocked, "stderr": err[-1500:], "_stuck_at": stuck_location(err)}))
+                    out.put((c, {"_timeout": True, "cpu_s": cpu, "_blocked": blocked, "stderr": err[-1500:], "_stuck_at": stuck_location(w.stderr_of_this_case())}))
                     w = None
                 elif obs is None:
                     w.kill()
